@@ -362,6 +362,15 @@ def analyse(ctx):
                             ob = 'O1' if CONTRACT[meth] == 1 else 'O2'
                             viols.setdefault((ob, meth, tr, 'the construct leaves the operand stack at height %s relative to its start; %s must leave %s'
                                               % (st.h, 'an expression' if ob == 'O1' else 'a statement', want)), None)
+                    for ev_ in st.trace:
+                        # a lookup that found nothing and did not end the compilation (the attempt at a fused instruction falls
+                        # back to the general sequence): the name is looked up again on this path, by this method or by the
+                        # compilation of the sub-expression it is part of - otherwise an unknown name compiles
+                        if isinstance(ev_, str) and ev_.startswith('unresolved ') and ev_ != 'unresolved ?':
+                            nm_ = ev_[len('unresolved '):]
+                            again = st.facts.get(('resolved', nm_)) or any(so[0] == 'compile' and so[2] and nm_.startswith(so[2]) for so in getattr(st, 'symops', []))
+                            if not again:
+                                viols.setdefault(('R09.4', meth, tr, 'the name %s was not found, and the construct compiles without looking it up again' % nm_), None)
                     arms.append({'symops': list(getattr(st, 'symops', [])), 'method': meth, 'trace': tr, 'dh': repr(st.h) if st.reach else None, 'last': st.last, 'reach': st.reach,
                                  'emits': [e[0] for e in st.emits], 'code': st.code, 'end_pos': st.pos, 'bound_end': bool(st.bound)})
                     if top:
